@@ -14,6 +14,30 @@ class Boom(Exception):
         self.code = code
 
 
+class BoomBase(BaseException):
+    """a BaseException that is not an Exception (like SystemExit / KeyboardInterrupt / GeneratorExit)"""
+    def __init__(self, code):
+        BaseException.__init__(self, "boombase %r" % (code,))
+        self.code = code
+
+
+# raise codes of a script: 0 returns, 1 Exception, 2.. BaseException subclasses that are not Exceptions
+RAISE = {1: Boom, 2: SystemExit, 3: KeyboardInterrupt, 4: GeneratorExit, 5: BoomBase}
+
+
+def rcode(r):
+    return 1 if r is True else (0 if r is False else int(r))
+
+
+def exc_id(e):
+    c = getattr(e, "code", None)
+    if isinstance(c, int):
+        return c
+    if e.args and isinstance(e.args[0], int):
+        return e.args[0]
+    return -1
+
+
 def fresh_queue():
     E.reset_clock()
     ev._theSimpleQueue = ev._SimpleCallQueue()
@@ -31,7 +55,7 @@ def one_reactor_call():
     dc.called = 1
     try:
         dc.func(*dc.args, **dc.kw)
-    except Exception as e:       # noqa -- an exception leaving _turn is an observation, not a harness error
+    except BaseException as e:   # noqa -- an exception (also SystemExit & co) leaving _turn is an observation, not a harness error
         return True, e
     return True, None
 
@@ -86,9 +110,9 @@ class EvRun:
             try:
                 for a in acts:
                     self.act(a)
-                if raises:
+                if rcode(raises):
                     self.trace.append([3, i])
-                    raise Boom(i)
+                    raise RAISE[rcode(raises)](i)
             finally:
                 self.depth -= 1
         return cb
@@ -161,8 +185,7 @@ class EvRun:
         finally:
             self.in_turn = False
         if exc is not None:
-            code = exc.code if isinstance(exc, Boom) else -1
-            self.trace.append([4, code])
+            self.trace.append([4, exc_id(exc)])
             self.depth = 0
             self.bad("oracle/exception-escaped-turn", "an exception raised by a callable left _turn: %r" % (exc,))
         return ran
@@ -189,6 +212,9 @@ class EvRun:
             n = self.flush_fired.get(fid, 0)
             if n != 1:
                 self.bad("oracle/flush-count", "flush request %d was notified %d times after the queue drained" % (fid, n))
+        if getattr(self.q, "_in_turn", False):
+            self.bad("oracle/in-turn-stuck", "after draining, the queue still believes a batch is running (_in_turn is True): "
+                     "flushEventualQueue() on the idle queue will not fire")
         if self.q._events or self.q._flushObservers:
             self.bad("oracle/not-empty-after-drain", "state after drain: %r" % (self.state(),))
 
@@ -202,20 +228,20 @@ def run_ev(prog):
     state = r.state()
     r.drain()
     return dict(trace=trace, state=state, viol=r.viol, full=[list(e) for e in r.trace],
-                nrun=len(r.rans), raised=sum(1 for e in r.trace if e[0] == 3),
+                nrun=len(r.rans), raised=sum(1 for e in r.trace if e[0] == 3), in_turn_after=getattr(r.q, "_in_turn", False),
                 reentrant=sum(1 for v in r.sub_turn.values() if v is not None))
 
 
 # ---- Coq syntax of a program
 def coq_script(s):
-    return "(Sc %d [%s] %s)" % (s[0], "; ".join(coq_act(a) for a in s[1]), "true" if s[2] else "false")
+    return "(Sc %d [%s] %s)" % (s[0], "; ".join(coq_act(a) for a in s[1]), ["RNo", "RExc", "RBase"][min(rcode(s[2]), 2)])
 
 
 def coq_act(a):
     if a[0] == "enq":
         return "AEnq %s" % coq_script(a[1])
     if a[0] == "fire":
-        return "AEnq (Sc %d [] false)" % a[1]
+        return "AEnq (Sc %d [] RNo)" % a[1]
     return "AFlush %d [%s]" % (a[1], "; ".join(coq_script(x) for x in (a[2] if len(a) > 2 else [])))
 
 
@@ -237,7 +263,7 @@ _MISSING = object()
 def canon_outcome(x):
     """-> (0, v) for a Target, (1, f) for a Failure"""
     if isinstance(x, Failure):
-        return (1, x.value.code if isinstance(x.value, Boom) else -1)
+        return (1, x.value.code if isinstance(x.value, (Boom, BoomBase)) else -1)
     if isinstance(x, Target):
         return (0, x.v)
     return (0, -999)
@@ -301,7 +327,7 @@ class PrRun:
             return Target(self, beh[1])
         if beh[0] == "raise":
             self.returned[mid] = ("fail", beh[1])
-            raise Boom(beh[1])
+            raise (BoomBase if beh[1] % 3 == 0 else Boom)(beh[1])
         q = beh[1]
         if q < len(self.P) and self.P[q] is not None:
             self.returned[mid] = ("prom", q)
@@ -403,6 +429,11 @@ class PrRun:
                     if prom._state == pm.EVENTUAL:
                         self.bad("oracle/promise-not-broken" if x[0] == "fail" else "oracle/promise-not-resolved",
                                  "promise %d is still EVENTUAL after _resolve(%r) was accepted" % (p, x))
+        except Exception as e:   # noqa
+            self.trace.append([6, p])
+            if k == "send" and len(self.P) == ridx:
+                self.P.append(None)
+            self.bad("oracle/operation-raised", "%s on promise %d raised %s: %s" % (k, p, type(e).__name__, str(e)[:200]))
         finally:
             self.in_op = False
 
@@ -511,7 +542,7 @@ def filter_model_trace(flat, kinds):
     """the model reports every observer; _then only hears values and _except only failures"""
     out = []
     i = 0
-    size = {1: 3, 2: 4, 3: 5, 4: 2, 5: 2}
+    size = {1: 3, 2: 4, 3: 5, 4: 2, 5: 2, 6: 2}
     while i < len(flat):
         n = size[flat[i]]
         e = flat[i:i + n]
